@@ -73,6 +73,40 @@ def use_imul(u):
     return IMUL
 
 
+I2R = z3.Function("i2r", I, R)
+
+
+def use_i2r(u):
+    """int -> real conversion of a symbolic integer, kept uninterpreted in `nla=uf` units so that equal integers give
+    syntactically congruent real terms; only sign facts are available"""
+    if "i2r" not in u.used:
+        u.used.add("i2r")
+        a = z3.Int("ir_a")
+        u.bg.append(z3.ForAll([a], z3.And((I2R(a) > 0) == (a > 0), (I2R(a) >= 0) == (a >= 0), (I2R(a) == 0) == (a == 0),
+                                          (I2R(a) >= 1) == (a >= 1), (I2R(a) == 1) == (a == 1)),
+                              qid="i2r-sign", patterns=[I2R(a)]))
+    return I2R
+
+
+RMUL = z3.Function("rmul", R, R, R)
+RDIV = z3.Function("rdiv", R, R, R)
+
+
+def use_rnl(u):
+    """uninterpreted product / quotient of two symbolic reals (abstraction of * and /): sign facts only"""
+    if "rnl" not in u.used:
+        u.used.add("rnl")
+        a, b = z3.Reals("rn_a rn_b")
+        u.bg.append(z3.ForAll([a, b], z3.And(z3.Implies(z3.And(a >= 0, b > 0), RDIV(a, b) >= 0),
+                                             z3.Implies(z3.And(a > 0, b > 0), RDIV(a, b) > 0),
+                                             z3.Implies(z3.And(a <= 0, b > 0), RDIV(a, b) <= 0)),
+                              qid="rdiv-sign", patterns=[RDIV(a, b)]))
+        u.bg.append(z3.ForAll([a, b], z3.And(z3.Implies(z3.And(a >= 0, b >= 0), RMUL(a, b) >= 0),
+                                             z3.Implies(z3.And(a > 0, b > 0), RMUL(a, b) > 0)),
+                              qid="rmul-sign", patterns=[RMUL(a, b)]))
+    return RMUL, RDIV
+
+
 IDIV = z3.Function("idiv", I, I, I)
 
 
@@ -97,7 +131,9 @@ def axioms_for(used):
     def fa(vs, body, pats):
         out.append(z3.ForAll(vs, body, patterns=pats))
     if "sqrt" in used:
-        fa([x], z3.Implies(x >= 0, z3.And(sqrt_(x) >= 0, sqrt_(x) * sqrt_(x) == x)), [sqrt_(x)])
+        fa([x], z3.Implies(x >= 0, sqrt_(x) >= 0), [sqrt_(x)])
+    if "sqrt-arith" in used:      # opt-in: nonlinear / pairwise facts
+        fa([x], z3.Implies(x >= 0, sqrt_(x) * sqrt_(x) == x), [sqrt_(x)])
         fa([x, y], z3.Implies(z3.And(x >= 0, y >= 0, x <= y), sqrt_(x) <= sqrt_(y)), [z3.MultiPattern(sqrt_(x), sqrt_(y))])
         out.append(sqrt_(0) == 0)
         out.append(sqrt_(1) == 1)
@@ -129,16 +165,13 @@ def axioms_for(used):
         out.append(z3.And(PI > z3.RealVal("3.1415"), PI < z3.RealVal("3.1416")))
     if "rpow" in used:
         fa([x, y], z3.Implies(x > 0, rpow(x, y) > 0), [rpow(x, y)])
+    if "rpow-arith" in used:      # opt-in (contract kw axioms=[...]): these multiply instances when many rpow terms occur
         fa([x], z3.Implies(x > 0, rpow(x, 0) == 1), [rpow(x, 0)])
         fa([x], rpow(x, 1) == x, [rpow(x, 1)])
-        fa([x, y], z3.Implies(x > 0, rpow(x, y + 1) == x * rpow(x, y)), [rpow(x, y + 1)])
-        # 0 < x <= 1, y >= 0  =>  x**y <= 1 ;  x >= 1, y >= 0 => x**y >= 1
         fa([x, y], z3.Implies(z3.And(x > 0, x <= 1, y >= 0), rpow(x, y) <= 1), [rpow(x, y)])
         fa([x, y], z3.Implies(z3.And(x >= 1, y >= 0), rpow(x, y) >= 1), [rpow(x, y)])
-        # monotone in the base for a fixed positive exponent
         fa([x, a, y], z3.Implies(z3.And(x > 0, x <= a, y >= 0), rpow(x, y) <= rpow(a, y)),
            [z3.MultiPattern(rpow(x, y), rpow(a, y))])
-        # antitone in the exponent for bases in (0,1]
         fa([x, y, a], z3.Implies(z3.And(x > 0, x <= 1, y <= a), rpow(x, a) <= rpow(x, y)),
            [z3.MultiPattern(rpow(x, y), rpow(x, a))])
     if "pow2" in used:
